@@ -14,6 +14,12 @@ package main
 // closed; after Serve returns: no fd into the tree, every object closed exactly once,
 // TransferError exactly on the readers/writers whose handle was still open, before Close,
 // every context cancelled, no package goroutine left.
+//
+// Model comparison (srvsession_model.go): every session is also replayed in the executable
+// Lean model of the handle table (driver op `c11.run`, configuration bits from `cur.cfg c11rs` /
+// `cur.cfg c11os`, i.e. regenerated from the source): status class of every handle request,
+// handle string of every OPEN / OPENDIR, per object closed / TransferError / context / touched
+// after Serve, and the table before the end and after it.  Key c11/c11.run/<rs|os>.
 
 import (
 	"encoding/json"
@@ -53,6 +59,10 @@ func checkC11(c *lib.Ctx) {
 		r.Case(fmt.Sprint(j.input()), true)
 		col.done(0, j, &res)
 		col.confirm(1)
+		if mc := newSSModelCmp(c); mc != nil {
+			mc.add(j, &res)
+			mc.close()
+		}
 		return
 	}
 
@@ -115,6 +125,7 @@ func checkC11(c *lib.Ctx) {
 		}
 	}
 	col := &ssCollector{r: r, base: base, jobs: jobs}
+	mc := newSSModelCmp(c)
 	nSample := 0
 	ssRunPool(base, workers, jobs, func(i int, j *ssPJob, res *ssResult) {
 		eb, _ := json.Marshal(j.End)
@@ -126,8 +137,13 @@ func checkC11(c *lib.Ctx) {
 			r.Sample(map[string]any{"cfg": j.Cfg.String(), "session_steps": len(j.Prog), "steps_up_to_cut": j.Prog[max(0, j.End.After-4) : j.End.After+1], "end": j.End})
 		}
 		col.done(i, j, res)
+		mc.add(j, res)
 	})
 	col.confirm(3)
+	mc.close()
 	r.Note("sessions=%d configs=%d cases=%d children=%d; child deaths: %d", len(progs), len(cfgs), len(jobs), workers, len(col.crashed))
-	r.Skip("model comparison: no Lean driver op for C11 yet. Trace that can be handed to a model: `c11.run <kind> <reqs: open-ok|open-fail|opendir-ok|opendir-fail|close:#k|close:bogus|use:#k:<kind>|path,…> <cut index> <mode>` where #k names the k-th issued handle; expected output per request: handle string issued / EBADF-refusal, and at the end per object (closed, transferErr, ctxCancelled)")
+	if mc == nil {
+		r.Skip("model comparison (driver op c11.run): no --model given")
+	}
+	r.Skip("model comparison, not expressible with the driver op c11.run: INIT and path requests (dropped from the trace: the model has no action for them); requests that do not fit the kind of their live handle (one `use` action: found => called; such sessions are counted in model/skip/…); TransferError of a ListerAt (Request.transferError only tells readers and writers: the model's terr of a directory object is not compared); a context cancelled more than once; the table of the os-backed server after Serve (server.go's sweep closes the files but does not delete the map entries, the model forgets them: unobservable, not compared); for the request server the table CONTENTS (only VerifOpenRequests = its size is exported; the os-backed table is read exactly through VerifSwapFile probes)")
 }
